@@ -23,6 +23,12 @@ for (n, d) in ((1, 1), (2, 1), (3, 2), (4, 2), (4, 3)):
     for epsk in (0, 1, 2, 3):  # symbolic bandwidth, 0.5 (the default), 4, 5 (rounded division)
         quick.append(job("c06.dense", secs=30, n=n, d=d, m=m, method=GAUSS, epsk=epsk, B=64, E=64, R=16))
 
+# records far from the origin but close to each other (every coordinate shifted by 2^30): the Gaussian kernel depends
+# on differences only.  "inexact": the interval analysis bounds (a - b)^2 by the magnitudes of a and b
+for (n, d) in ((2, 1), (3, 1), (3, 2)):
+    quick.append(job("c06.dense", secs=30, allow=("inexact",), n=n, d=d, m=1, method=GAUSS, epsk=0, offs=30, B=64, E=64, R=16))
+quick.append(job("c06.dense", secs=30, allow=("inexact",), n=2, d=2, m=1, method=GAUSS, epsk=1, offs=40, B=64, E=64, R=16))
+
 # ---- sparse kernels, 1-D points: pattern = symmetrised k-NN graph + diagonal for every index kind
 for kind in (KD, LIN):
     quick.append(job("c06.sparse", secs=30, n=2, d=1, k=1, kind=kind, method=LINEAR))
